@@ -438,21 +438,175 @@ def translate_fixed_subscripts(tree):
     return s
 
 
-def generate(repo):
-    """-> (coq_text, info dict).  Raises TranslateError."""
+# ---------------------------------------------------------------------------------------
+# TensorProd: the einsum literals of the vector, matrix and symmetrised matrix products
+# ---------------------------------------------------------------------------------------
+def _canon(ins, out, where):
+    """relabel so that the output reads 0,1,2,...: the triple is then independent of the letters"""
+    if len(set(out)) != len(out) or any(l not in out for i in ins for l in i):
+        raise TranslateError("%s: every label must appear exactly once in the output" % where)
+    m = {l: k for k, l in enumerate(out)}
+    return [[m[l] for l in i] for i in ins], list(range(len(out)))
+
+
+def _letters(s, where):
+    try:
+        lhs, rhs = s.split("->")
+        parts = lhs.split(",") + [rhs]
+    except ValueError:
+        raise TranslateError("%s: malformed subscript %r" % (where, s))
+    res = []
+    for part in parts:
+        if not part.startswith("...") or not part[3:].isalpha() and part[3:] != "":
+            raise TranslateError("%s: operand without leading ellipsis in %r" % (where, s))
+        res.append(list(part[3:]))
+    return res[:-1], res[-1]
+
+
+def _tp_product(val, known, where):
+    """np.einsum(<lit>, A, B) | np.einsum(<lit>, B, A) | np.swapaxes(<earlier product>, m, n)
+    -> canonical (labels of A, labels of B, out)"""
+    if isinstance(val, ast.Call) and ast.unparse(val.func) == "np.einsum" and len(val.args) == 3 and not val.keywords \
+            and isinstance(val.args[0], ast.Constant) and isinstance(val.args[0].value, str):
+        names = [ast.unparse(a) for a in val.args[1:]]
+        ins, out = _letters(val.args[0].value, where)
+        if len(ins) != 2 or sorted(names) != ["A", "B"]:
+            raise TranslateError("%s: expected np.einsum(<literal>, A, B)" % where)
+        if names == ["B", "A"]:
+            ins = [ins[1], ins[0]]
+        ins, out = _canon(ins, out, where)
+        return (ins[0], ins[1], out)
+    if isinstance(val, ast.Call) and ast.unparse(val.func) == "np.swapaxes" and len(val.args) == 3 and not val.keywords \
+            and isinstance(val.args[0], ast.Name) and val.args[0].id in known:
+        la, lb, out = known[val.args[0].id]
+        try:
+            m, n = (int(ast.literal_eval(a)) for a in val.args[1:])
+        except (ValueError, SyntaxError):
+            raise TranslateError("%s: swapaxes with non-literal axes" % where)
+        k = len(out)
+        if not (-k <= m < 0 and -k <= n < 0):
+            raise TranslateError("%s: swapaxes must address tensor axes from the end" % where)
+        o = list(out)
+        o[m], o[n] = o[n], o[m]          # result[..., idx] = p[..., idx with m, n exchanged]
+        ins, out2 = _canon([la, lb], o, where)
+        return (ins[0], ins[1], out2)
+    raise TranslateError("%s: unsupported product expression %s" % (where, ast.unparse(val)))
+
+
+def translate_tensorprod(tree):
+    fn = _find_func(tree, "TensorProd")
+    chain = None
+    for st in fn.body:
+        if isinstance(st, ast.If) and ast.unparse(st.test) == "ndim == 1":
+            chain = st
+    if chain is None or len(chain.orelse) != 1 or not isinstance(chain.orelse[0], ast.If) or ast.unparse(chain.orelse[0].test) != "ndim == 2":
+        raise TranslateError("TensorProd: no `if ndim == 1 / elif ndim == 2` chain")
+    tail = [ast.unparse(s) for s in fn.body[-2:]]
+    if tail != ["if useFeArray:\n    res = FeArray.asfearray(res)", "return res"]:
+        raise TranslateError("TensorProd: unexpected epilogue %r" % tail)
+
+    def single(body, where):
+        if len(body) != 1 or not isinstance(body[0], ast.Assign) or ast.unparse(body[0].targets[0]) != "res":
+            raise TranslateError("%s: expected `res = np.einsum(...)`" % where)
+        return _tp_product(body[0].value, {}, where)
+    vec = single(chain.body, "TensorProd[ndim=1]")
+    b2 = chain.orelse[0].body
+    if len(b2) != 1 or not isinstance(b2[0], ast.If) or ast.unparse(b2[0].test) != "symmetric":
+        raise TranslateError("TensorProd[ndim=2]: expected `if symmetric: ... else: ...`")
+    mat = single(b2[0].orelse, "TensorProd[ndim=2, not symmetric]")
+    known = {}
+    res = None
+    for st in b2[0].body:
+        if not isinstance(st, ast.Assign) or len(st.targets) != 1 or not isinstance(st.targets[0], ast.Name):
+            raise TranslateError("TensorProd[symmetric]: unsupported statement `%s`" % ast.unparse(st))
+        nm = st.targets[0].id
+        if nm == "res":
+            res = st.value
+        else:
+            known[nm] = _tp_product(st.value, known, "TensorProd[symmetric] %s" % nm)
+    if res is None or len(known) != 2:
+        raise TranslateError("TensorProd[symmetric]: expected two products and `res = 1/2 * (p + q)`")
+    a, b = sorted(known)
+    forms = set()
+    for x, y in ((a, b), (b, a)):
+        forms |= {"1 / 2 * (%s + %s)" % (x, y), "(%s + %s) / 2" % (x, y), "0.5 * (%s + %s)" % (x, y), "(%s + %s) * 0.5" % (x, y),
+                  "1 / 2 * %s + 1 / 2 * %s" % (x, y), "0.5 * %s + 0.5 * %s" % (x, y)}
+    if ast.unparse(res) not in forms:
+        raise TranslateError("TensorProd[symmetric]: result is not half the sum of the two products: %s" % ast.unparse(res))
+    return vec, mat, [known[a], known[b]]
+
+
+def emit_tensorprod(tp):
+    vec, mat, sym = tp
+
+    def tri(x):
+        return "(%s, %s, %s)" % (_labs(x[0]), _labs(x[1]), _labs(x[2]))
+    s = "Definition gen_tp_vec : list nat * list nat * list nat := %s.\n" % tri(vec)
+    s += "Definition gen_tp_mat : list nat * list nat * list nat := %s.\n" % tri(mat)
+    s += "Definition gen_tp_sym : list (list nat * list nat * list nat) := [%s].\n" % "; ".join(tri(x) for x in sym)
+    return s
+
+
+def generate_tensorprod(repo):
     path, tree = _src(repo)
-    tr = translate_det_inv(tree)
-    tabs = translate_subscripts(tree)
+    s = "(* GENERATED by translator/C12_linalg.py (TensorProd) from %s -- do not edit *)\n" % path
+    s += "From Coq Require Import List Arith.\nImport ListNotations.\n\n"
+    return s + emit_tensorprod(translate_tensorprod(tree))
+
+
+# hand-written stand-in used ONLY when Det/Inv cannot be translated, so that the correspondence
+# case files still compile (the Det/Inv theorems then fail, which is reported)
+FALLBACK_DET_INV = """
+Definition gen_detQ (n : nat) (m : nat -> nat -> Q) : Q :=
+  match n with
+  | 1 => m 0%nat 0%nat
+  | 2 => (m 0%nat 0%nat * m 1%nat 1%nat - m 0%nat 1%nat * m 1%nat 0%nat)%Q
+  | 3 => (m 0%nat 0%nat * (m 1%nat 1%nat * m 2%nat 2%nat - m 1%nat 2%nat * m 2%nat 1%nat)
+          - m 0%nat 1%nat * (m 1%nat 0%nat * m 2%nat 2%nat - m 1%nat 2%nat * m 2%nat 0%nat)
+          + m 0%nat 2%nat * (m 1%nat 0%nat * m 2%nat 1%nat - m 1%nat 1%nat * m 2%nat 0%nat))%Q
+  | _ => 0%Q
+  end.
+Definition minorQ (n : nat) (m : nat -> nat -> Q) (r c : nat) : nat -> nat -> Q :=
+  fun i j => m (if i <? r then i else S i) (if j <? c then j else S j).
+Definition gen_invQ (n : nat) (m : nat -> nat -> Q) (i j : nat) : Q :=
+  let cof := match n with 1 => 1%Q | S k => gen_detQ k (minorQ n m j i) | 0 => 0%Q end in
+  ((if Nat.even (i + j) then cof else - cof) / gen_detQ n m)%Q.
+"""
+
+
+def generate(repo):
+    """-> (coq_text, info dict, errors).  Each part is translated on its own; a part that is
+    rejected is listed in `errors` (and left out / replaced by a stand-in), the rest is emitted."""
+    path, tree = _src(repo)
+    errors = []
     s = "(* GENERATED by translator/C12_linalg.py from %s -- do not edit *)\n" % path
     s += "From Coq Require Import List Arith ZArith QArith Reals.\nImport ListNotations.\nLocal Open Scope nat_scope.\n\n"
-    s += emit_det_inv(tr)
-    s += "\n" + translate_keeps(tree)
-    s += "\n" + emit_subscripts(tabs)
-    s += "\n" + translate_fixed_subscripts(tree)
-    info = {"det_inv_branches": 6, "dot_pairs": len(tabs["_dot_subscript"][1]), "ddot_pairs": len(tabs["_ddot_subscript"][1])}
-    return s, info
+    info = {}
+    try:
+        s += emit_det_inv(translate_det_inv(tree))
+        info["det_inv_branches"] = 6
+    except TranslateError as ex:
+        errors.append(("Det/Inv", str(ex)))
+        s += FALLBACK_DET_INV
+    try:
+        s += "\n" + translate_keeps(tree)
+    except TranslateError as ex:
+        errors.append(("_KeepsFeAxes", str(ex)))
+    try:
+        tabs = translate_subscripts(tree)
+        s += "\n" + emit_subscripts(tabs)
+        info["dot_pairs"] = len(tabs["_dot_subscript"][1])
+        info["ddot_pairs"] = len(tabs["_ddot_subscript"][1])
+    except TranslateError as ex:
+        errors.append(("_dot_subscript/_ddot_subscript", str(ex)))
+    try:
+        s += "\n" + translate_fixed_subscripts(tree)
+    except TranslateError as ex:
+        errors.append(("__matmul__/Trace einsum literals", str(ex)))
+    return s, info, errors
 
 
 if __name__ == "__main__":
     import sys
     print(generate(sys.argv[1] if len(sys.argv) > 1 else "/repo")[0])
+    print(generate_tensorprod(sys.argv[1] if len(sys.argv) > 1 else "/repo"))
